@@ -66,8 +66,18 @@ prop('C17', level='proof', design_ref='DESIGN.md section 6 (C17)',
      explanation='Postconditions taken from the statement; hist_of is the full confirmed history.',
      not_decided=[], assumptions=[])
 
+prop('C19', level='proof', design_ref='DESIGN.md section 6 (C19)',
+     technique='deductive verification: VCs from the real Peer / PeerManager code; JSON feature dictionaries as datatype J; '
+               'bucket cap by ghost witness maps; z3',
+     text='Ports valid or absent and the is_public definition for every JSON feature dictionary; the advertised list '
+          'contains only recent, good, public peers or own identities, at most two per external bucket, for all peer sets.',
+     note='Trusted: ipaddress predicates and is_valid_hostname uninterpreted (T-IP), random.shuffle an arbitrary permutation '
+          '(T-RANDOM), time.time arbitrary.',
+     explanation='Per-function contracts on Peer helpers and PeerManager.',
+     not_decided=[], assumptions=[])
+
 for _pid in ['C01', 'C02', 'C03', 'C04', 'C05', 'C07', 'C08', 'C09', 'C10', 'C11', 'C13', 'C14', 'C15',
-             'C18', 'C19']:
+             'C18']:
     na(_pid, 'contracts for this property are not yet built in this round (planned: DESIGN.md section 6); nothing is claimed')
 na('C06', 'quantifies over cancellation instants of an asyncio task while worker-thread jobs keep running: not '
           'expressible as pre/postconditions of functions in a sequential or cooperative model (DESIGN.md section 6, C06)')
